@@ -1,4 +1,9 @@
 import DadiVerif.Lemmas.Admix
+import DadiVerif.Lemmas.AdmixMass
+import DadiVerif.Lemmas.AdmixExt
+import DadiVerif.Lemmas.AdmixComm
+import DadiVerif.Lemmas.AdmixFloat
+import DadiVerif.Lemmas.AdmixLoops
 /-!
 # C06 — splits, admixture, pulses, removal and reordering conserve marginal densities
 
@@ -307,5 +312,294 @@ example : ([7/10, 6/10] : List ℚ).sum > 1 := by norm_num
     populations in ascending order.  On the pinned tree `phi_4D_admix_into_3/4` hand `yy` and `phi_5D_admix_into_2..5`
     hand `xx` (and integrate with `xx`), which is only harmless when all populations share one grid. -/
 theorem C06_wiring_grids : ∀ r ∈ Gen.Admix.rows, rowGridsOk r = true := by decide
+
+/-! # Round 4 extension -/
+
+/-! ## total mass (the full d-dimensional trapezoid sum `totalMass grids P` = iterated `Numerics.trapz`) -/
+
+/-- `reorder_pops` preserves the total mass, the grids being permuted alike: for any permutation `axes` of the axes, and
+    for the public function with its `sorted(neworder) == [1..ndim]` guard (whenever it does not raise). -/
+theorem C06_reorder_mass (grids : List (Array ℚ)) (P : Dens) (hd : P.shape.length = grids.length) :
+    (∀ axes : List ℕ, axes.length = grids.length → axes.Nodup → (∀ a, a < grids.length → a ∈ axes) →
+        (∀ a ∈ axes, a < grids.length) →
+        totalMass (axes.map fun a => grids.getD a #[]) (reorderAxes axes P) = totalMass grids P) ∧
+    (∀ (neworder : List ℕ) (Q : Dens), reorderPops neworder P = some Q →
+        totalMass (neworder.map fun n => grids.getD (n - 1) #[]) Q = totalMass grids P) :=
+  ⟨fun axes hlen hnd hcov hval => reorderAxes_mass axes grids P hd hlen hnd hcov hval,
+   fun neworder Q h => reorderPops_mass neworder grids P Q hd h⟩
+
+example : let g1 : Array ℚ := #[0, 1/4, 1]
+    let g2 : Array ℚ := #[0, 1]
+    let P : Dens := ⟨[3, 2], fun i => ((i.getD 0 0 + 3 * i.getD 1 0 + 1 : ℕ) : ℚ)⟩
+    ∃ Q, reorderPops [2, 1] P = some Q ∧ totalMass [g2, g1] Q = totalMass [g1, g2] P ∧ totalMass [g1, g2] P = 25 / 8 ∧
+      Q.f [1, 2] ≠ P.f [1, 2] := by
+  refine ⟨reorderAxes [1, 0] ⟨[3, 2], fun i => ((i.getD 0 0 + 3 * i.getD 1 0 + 1 : ℕ) : ℚ)⟩, by decide +kernel, by decide +kernel,
+    by decide +kernel, by decide +kernel⟩
+
+/-- Removing a population preserves the total mass (`remove_pop` with the removed population's grid; `filter_pops`, whose
+    signature has ONE grid for all populations, whenever it does not raise). -/
+theorem C06_remove_mass (P : Dens) :
+    (∀ (grids : List (Array ℚ)) (a : ℕ), a < grids.length →
+        totalMass (grids.eraseIdx a) (removeAxis (grids.getD a #[]) a P) = totalMass grids P) ∧
+    (∀ (xx : Array ℚ) (p : ℕ) (Q : Dens), removePop xx p P = some Q →
+        totalMass (List.replicate Q.shape.length xx) Q = totalMass (List.replicate P.shape.length xx) P) ∧
+    (∀ (xx : Array ℚ) (keep : List ℕ) (Q : Dens), filterPops xx keep P = some Q →
+        totalMass (List.replicate Q.shape.length xx) Q = totalMass (List.replicate P.shape.length xx) P) :=
+  ⟨fun grids a ha => removeAxis_mass grids a P ha, fun xx p Q h => (removePop_mass xx p P Q h).2,
+   fun xx keep Q h => filterPops_mass xx keep P Q h⟩
+
+/-- Creating a population (split / admixture, any number of parents) preserves the total mass: the full trapezoid sum
+    of the (d+1)-dimensional result equals that of the d-dimensional input. -/
+theorem C06_newpop_mass (grids : List (Array ℚ)) (zz : Array ℚ) (f : List ℚ) (P : Dens)
+    (hs : Simplex f) (hz : Grid01 zz) (hgl : grids.length = f.length + 1)
+    (hg : ∀ m, m < grids.length → Grid01 (grids.getD m #[])) :
+    totalMass (grids ++ [zz]) (newPop grids zz f P) = totalMass grids P := by
+  unfold newPop
+  apply newPopRaw_mass grids zz _ P hz.1.1
+  intro idx hb
+  obtain ⟨h0, h1⟩ := adZ_simplex f.length f grids idx (le_refl _) hs hgl (by rw [hb.1, hgl])
+    (fun m hm => ⟨hg m hm, hb.2 m hm⟩)
+  exact depositOk_of_range zz _ _ hz.1 (by rw [hz.2.1]; exact h0) (by rw [hz.2.2]; exact h1)
+
+/-- A pulse of admixture preserves the total mass. -/
+theorem C06_pulse_mass (grids : List (Array ℚ)) (dest : ℕ) (f : List ℚ) (P : Dens)
+    (hs : Simplex f) (hd : dest ≤ f.length) (hgl : grids.length = f.length + 1)
+    (hg : ∀ m, m < grids.length → Grid01 (grids.getD m #[])) :
+    totalMass grids (pulse grids dest f P) = totalMass grids P := by
+  unfold pulse
+  have hgd := hg dest (by omega)
+  apply pulseRaw_mass grids grids _ dest P (by omega) hgd.1.1
+  intro idx hb
+  obtain ⟨h0, h1⟩ := adZ_simplex dest f grids idx hd hs hgl (by rw [hb.1, hgl]) (fun m hm => ⟨hg m hm, hb.2 m hm⟩)
+  exact depositOk_of_range _ _ _ hgd.1 (by rw [hgd.2.1]; exact h0) (by rw [hgd.2.2]; exact h1)
+
+example : let g : Array ℚ := #[0, 1/4, 1]
+    let P : Dens := ⟨[3, 3], fun i => ((i.getD 0 0 + 2 * i.getD 1 0 + 1 : ℕ) : ℚ)⟩
+    totalMass [g, g] P = 21 / 8 ∧ totalMass [g, g] (pulse [g, g] 0 [1/3] P) = 21 / 8 ∧
+    totalMass [g, g, g] (newPop [g, g] g [1/3] P) = 21 / 8 := by
+  decide +kernel
+
+/-! ## the new / the destination population carries the parental mixture frequency, any number of parents -/
+
+/-- Constructor with parents 1..n+1 (proportions `f`, the last parent keeps `1 - Σ f`): for every source cell `idx`, along
+    the new axis the deposit has first moment `(Σ_m c_m·x_m)·(zeroth moment)`, where `c = fullCoefs` are the documented
+    proportions and `x_m` the cell's frequency in parent m — the linear-interpolation weights reproduce the parental
+    mixture frequency, for any number of parents, any strictly increasing grid of the new population. -/
+theorem C06_newpop_mixture (grids : List (Array ℚ)) (zz : Array ℚ) (f : List ℚ) (P : Dens) (idx : Idx)
+    (hz : GridOk zz) (hgl : grids.length = f.length + 1) (hil : idx.length = f.length + 1) :
+    ∑ k ∈ range zz.size, gv zz k * (newPop grids zz f P).f (idx ++ [k])
+      = (∑ m ∈ range (f.length + 1), (if m < f.length then f.getD m 0 else 1 - f.sum) * gv (grids.getD m #[]) (idx.getD m 0))
+        * ∑ k ∈ range zz.size, (newPop grids zz f P).f (idx ++ [k]) := by
+  unfold newPop
+  rw [newPopRaw_mixture grids zz _ P idx hz]
+  congr 1
+  have hlen : (fullCoefs f.length f).length = f.length + 1 := by unfold fullCoefs; rw [List.length_insertIdx]; simp
+  rw [adZ_eq_sum _ grids idx (by omega) (by omega), hlen]
+  apply Finset.sum_congr rfl
+  intro m hm
+  rw [fullCoefs_getD f.length f (le_refl _) m]
+  have : m < f.length + 1 := Finset.mem_range.1 hm
+  by_cases h : m < f.length
+  · rw [if_pos h, if_pos h]
+  · rw [if_neg h, if_neg h, if_pos (by omega)]
+
+example : let g : Array ℚ := #[0, 1/4, 1]
+    let P : Dens := ⟨[3, 3, 3], fun i => ((i.getD 0 0 + 2 * i.getD 1 0 + i.getD 2 0 + 1 : ℕ) : ℚ)⟩
+    GridOk g ∧ ∑ k ∈ range 3, gv g k * (newPop [g, g, g] g [1/3, 1/2] P).f ([1, 2, 0] ++ [k])
+      = (7 / 12) * ∑ k ∈ range 3, (newPop [g, g, g] g [1/3, 1/2] P).f ([1, 2, 0] ++ [k])
+    ∧ ∑ k ∈ range 3, (newPop [g, g, g] g [1/3, 1/2] P).f ([1, 2, 0] ++ [k]) ≠ 0 := by
+  refine ⟨⟨by decide, ?_⟩, by decide +kernel, by decide +kernel⟩
+  intro j hj
+  have : j = 0 ∨ j = 1 := by simp at hj; omega
+  rcases this with rfl | rfl <;> decide +kernel
+
+/-- Pulse of a point density: if, in the line through `idx` along the destination axis, all the mass sits in the cell with
+    destination index `c`, then after the pulse that line has first moment `ad_z(c)·(zeroth moment)` with
+    `ad_z(c) = Σ_m c_m·x_m` the documented mixture frequency of that cell (any number of populations, any destination). -/
+theorem C06_pulse_mixture (grids : List (Array ℚ)) (dest : ℕ) (f : List ℚ) (P : Dens) (idx : Idx) (c : ℕ)
+    (hd : dest < idx.length) (hg : GridOk (grids.getD dest #[])) (hc : c < (grids.getD dest #[]).size)
+    (hpt : ∀ j, j ≠ c → P.f (idx.set dest j) = 0) :
+    ∑ k ∈ range (grids.getD dest #[]).size, gv (grids.getD dest #[]) k * (pulse grids dest f P).f (idx.set dest k)
+      = adZ grids (fullCoefs dest f) (idx.set dest c)
+        * ∑ k ∈ range (grids.getD dest #[]).size, (pulse grids dest f P).f (idx.set dest k) :=
+  pulseRaw_mixture grids _ _ dest P idx hd hg c hc hpt
+
+/-! ## beyond the ends of the grid: the two clamps of `_admixture_intermediates` -/
+
+/-- A mixed frequency that round-off pushed ABOVE the last grid point (`δ = ad_z - z_last > 0`): `searchsorted` returns
+    `len(zz)`, `numpy.minimum(.., len(zz)-1)` brings the upper index back to the last point and the lower index, derived
+    from the clamped one, is the point before it — they never coincide.  The deposit extrapolates linearly
+    (`frac_lower < 0 < 1 < frac_upper`), stays well defined as long as `δ·(z_{n-2} - z_{n-3}) < (z_{n-1} - z_{n-2})²` and
+    then still integrates to the source cell's mass.  Symmetrically BELOW the first grid point with the
+    `numpy.maximum(.., 1)` clamp. -/
+theorem C06_deposit_clamped (zz : Array ℚ) (φ adz : ℚ) (hg : GridOk zz) :
+    (gv zz (zz.size - 1) < adz →
+      Gen.Admix.upperIdx zz φ adz = ((zz.size - 1 : ℕ) : ℤ) ∧ Gen.Admix.lowerIdx zz φ adz = ((zz.size - 2 : ℕ) : ℤ) ∧
+      ((adz - gv zz (zz.size - 1)) * delz0 zz (zz.size - 2) < (gv zz (zz.size - 1) - gv zz (zz.size - 2)) ^ 2 →
+        Gen.Admix.fracLower zz φ adz < 0 ∧ 1 < Gen.Admix.fracUpper zz φ adz ∧
+        ∑ k ∈ range zz.size, trapzW zz k * depositAt zz φ adz k = φ)) ∧
+    (adz ≤ gv zz 0 →
+      Gen.Admix.upperIdx zz φ adz = 1 ∧ Gen.Admix.lowerIdx zz φ adz = 0 ∧
+      ((gv zz 0 - adz) * delz2 zz 1 < (gv zz 1 - gv zz 0) ^ 2 →
+        1 ≤ Gen.Admix.fracLower zz φ adz ∧ Gen.Admix.fracUpper zz φ adz ≤ 0 ∧
+        ∑ k ∈ range zz.size, trapzW zz k * depositAt zz φ adz k = φ)) := by
+  have h2 := hg.1
+  obtain ⟨hU, hL⟩ := cell_idx zz φ adz h2
+  constructor
+  · intro h
+    have hu := uNat_above zz hg adz h
+    refine ⟨by rw [hU, hu], by rw [hL, hu]; congr 1, ?_⟩
+    intro hs
+    obtain ⟨hok, h1, h3⟩ := depositOk_above zz φ adz hg h hs
+    exact ⟨h1, h3, deposit_mass zz φ adz h2 hok⟩
+  · intro h
+    have hu := uNat_below zz hg adz h
+    refine ⟨by rw [hU, hu]; rfl, by rw [hL, hu]; rfl, ?_⟩
+    intro hs
+    obtain ⟨hok, h1, h3⟩ := depositOk_below zz φ adz hg h hs
+    exact ⟨h1, h3, deposit_mass zz φ adz h2 hok⟩
+
+example : let g : Array ℚ := #[0, 1/4, 1]
+    GridOk g ∧ gv g (3 - 1) < (1 + 1/1000 : ℚ) ∧
+      ((1 + 1/1000 : ℚ) - gv g (3 - 1)) * delz0 g (3 - 2) < (gv g (3 - 1) - gv g (3 - 2)) ^ 2 ∧
+      depositAt g 1 (1 + 1/1000) 1 < 0 := by
+  refine ⟨⟨by decide, ?_⟩, by decide +kernel, by decide +kernel, by decide +kernel⟩
+  intro j hj
+  have : j = 0 ∨ j = 1 := by simp at hj; omega
+  rcases this with rfl | rfl <;> decide +kernel
+
+/-- the lower and the upper index of the generated cell program never coincide, so the order of the two fancy-index fills
+    and `=` versus `+=` do not matter: the scratch row is the deposit -/
+theorem C06_fill_distinct (zz : Array ℚ) (φ adz : ℚ) :
+    Gen.Admix.lowerIdx zz φ adz ≠ Gen.Admix.upperIdx zz φ adz ∧
+    ∀ (L : Gen.Admix.LoopRow) (k : ℕ), depositFill L zz φ adz k = depositAt zz φ adz k :=
+  ⟨idx_distinct zz φ adz, fun L k => depositFill_eq L zz φ adz k⟩
+
+/-! ## pulses: composition, pulse and removal -/
+
+/-- A pulse commutes with the removal of a population `a` that does not contribute to it (its proportion is 0): pulse
+    into `dest`, then integrate `a` out = integrate `a` out, then pulse among the remaining populations
+    (`shiftAx x a` = position of axis x once axis a is gone). -/
+theorem C06_pulse_remove_comm (grids : List (Array ℚ)) (dest a : ℕ) (f : List ℚ) (P : Dens) (j : Idx)
+    (hgl : grids.length = f.length + 1) (hd : dest ≤ f.length) (ha : a ≤ f.length) (hne : dest ≠ a) (hj : a ≤ j.length)
+    (h2 : 2 ≤ (grids.getD dest #[]).size) (h0 : f.getD (shiftAx a dest) 0 = 0) :
+    (removeAxis (grids.getD a #[]) a (pulse grids dest f P)).f j
+      = (pulse (grids.eraseIdx a) (shiftAx dest a) (f.eraseIdx (shiftAx a dest)) (removeAxis (grids.getD a #[]) a P)).f j :=
+  pulse_remove_comm grids dest a f P j hgl hd ha hne hj h2 h0
+
+example : let g : Array ℚ := #[0, 1/4, 1]
+    let P : Dens := ⟨[3, 3, 3], fun i => ((i.getD 0 0 + 2 * i.getD 1 0 + i.getD 2 0 * i.getD 0 0 + 1 : ℕ) : ℚ)⟩
+    (removeAxis g 2 (pulse [g, g, g] 0 [1/3, 0] P)).f [1, 2] = (pulse [g, g] 0 [1/3] (removeAxis g 2 P)).f [1, 2] ∧
+    (removeAxis g 2 (pulse [g, g, g] 0 [1/3, 1/5] P)).f [1, 2] ≠ (pulse [g, g] 0 [1/3] (removeAxis g 2 P)).f [1, 2] := by
+  decide +kernel
+
+/-- Two pulses in a row: into the same population, the joint density of the others is still the input's; into any two
+    populations, the total mass is still the input's. -/
+theorem C06_pulse_compose (grids : List (Array ℚ)) (f1 f2 : List ℚ) (P : Dens)
+    (hs1 : Simplex f1) (hs2 : Simplex f2) (hl : f2.length = f1.length) (hgl : grids.length = f1.length + 1)
+    (hg : ∀ m, m < grids.length → Grid01 (grids.getD m #[])) :
+    (∀ (dest : ℕ) (j : Idx), dest ≤ f1.length → j.length = f1.length →
+        (∀ m, m < j.length → j.getD m 0 < (grids.getD (if m < dest then m else m + 1) #[]).size) →
+        (removeAxis (grids.getD dest #[]) dest (pulse grids dest f2 (pulse grids dest f1 P))).f j
+          = (removeAxis (grids.getD dest #[]) dest P).f j) ∧
+    (∀ d1 d2 : ℕ, d1 ≤ f1.length → d2 ≤ f1.length →
+        totalMass grids (pulse grids d2 f2 (pulse grids d1 f1 P)) = totalMass grids P) := by
+  constructor
+  · intro dest j hd hjl hbox
+    rw [C06_pulse_marginal grids dest f2 _ j hs2 (by omega) (by omega) (by omega) hg hbox,
+      C06_pulse_marginal grids dest f1 P j hs1 hd hgl hjl hg hbox]
+  · intro d1 d2 h1 h2
+    rw [C06_pulse_mass grids d2 f2 _ hs2 (by omega) (by omega) hg, C06_pulse_mass grids d1 f1 P hs1 h1 hgl hg]
+
+/-! ## the generated loop / fancy-indexing structure -/
+
+/-- OBLIGATION on the generated loop structure of the 17 functions (`Gen.Admix.loopRows`, same order as `rows`): every
+    pulse runs one loop per non-destination axis over the whole extent of THAT axis, allocates (zeroes) the scratch array
+    destination × destination inside the innermost loop, indexes its rows with `arange` over the destination extent, and
+    writes `Numerics.trapz(phi_int, .., axis=0)` back along the destination axis. -/
+theorem C06_loops : Gen.Admix.rows.length = Gen.Admix.loopRows.length ∧
+    ∀ p ∈ List.zip Gen.Admix.rows Gen.Admix.loopRows, loopsOk p.1 p.2 = true := by
+  refine ⟨by decide, by decide⟩
+
+/-- …and then the loop-aware model that K compares with the code (`applyRowL`: fills in source order with their `=`/`+=`,
+    lines outside a shortened loop keep the input, `trapz` along the generated scratch axis) IS the functional model
+    `applyRow` of `C06_apply` and of the conservation theorems. -/
+theorem C06_loops_apply : ∀ p ∈ List.zip Gen.Admix.rows Gen.Admix.loopRows, ∀ (f : List ℚ) (grids : List (Array ℚ)) (P : Dens),
+    applyRowL p.1 p.2 f grids P = applyRow p.1 f grids P :=
+  fun p hp f grids P => applyRowL_eq p.1 p.2 (C06_loops.2 p hp) f grids P
+
+/-! ## the proportion guard in floating point -/
+
+/-- T tie between the two generated guard tables: with exact arithmetic (`rnd = id`, `sum` = the exact left fold) the float
+    guard of every function is its exact guard. -/
+theorem C06_guard_float_exact : ∀ p ∈ List.zip Gen.Admix.guardsFl Gen.Admix.rows,
+    p.1.name = p.2.name ∧ p.1.nf = p.2.nf ∧ ∀ f : List ℚ, p.1.guardFl id (fun l => l.foldl (· + ·) 0) f = p.2.guard f := by
+  intro p hp
+  simp only [Gen.Admix.guardsFl, Gen.Admix.rows, List.zip_cons_cons, List.zip_nil_right, List.mem_cons, List.mem_nil_iff, or_false] at hp
+  rcases hp with rfl | rfl | rfl | rfl | rfl | rfl | rfl | rfl | rfl | rfl | rfl | rfl | rfl | rfl | rfl | rfl | rfl <;>
+  exact ⟨rfl, rfl, fun f => rfl⟩
+
+/-- The guard `if sum(fs) > 1: raise` as the FLOATING-POINT code evaluates it accepts every vector of representable
+    proportions in the closed simplex — with NO slack — for every public function, under exactly these assumptions on the
+    arithmetic: `RoundNearest rnd e` (rounding monotone; 0 and 1 representable; error ≤ e on [0,1]; everything up to the
+    midpoint 1+2e rounds to ≤ 1 — IEEE binary64 round-to-nearest-even with e = 2⁻⁵⁴) when `sum` is the left-to-right
+    fold (numpy scalars, CPython < 3.12), and in addition `RoundEFT rnd e u` (idempotent; two-sided error on [0,1];
+    relative error ≤ u ≤ 1/8; Fast2Sum exact) when `sum` is CPython ≥ 3.12's Neumaier sum on Python floats. -/
+theorem C06_simplex_accept_float (rnd : ℚ → ℚ) (e : ℚ) :
+    (∀ fsum : List ℚ → ℚ, FloatSumOk rnd fsum → ∀ r ∈ Gen.Admix.guardsFl, ∀ f : List ℚ, f.length = r.nf → Simplex f →
+        (∀ x ∈ f, rnd x = x) → r.guardFl rnd fsum f = false) ∧
+    (RoundNearest rnd e → FloatSumOk rnd (seqSum rnd)) ∧
+    (∀ u, RoundEFT rnd e u → FloatSumOk rnd (neumaierSum rnd)) := by
+  refine ⟨?_, seqSum_ok rnd e, fun u => neumaierSum_ok rnd e u⟩
+  intro fsum hsum r hr f hf hs hrep
+  simp only [Gen.Admix.guardsFl, List.mem_cons, List.mem_nil_iff, or_false] at hr
+  rcases hr with rfl | rfl | rfl | rfl | rfl | rfl | rfl | rfl | rfl | rfl | rfl | rfl | rfl | rfl | rfl | rfl | rfl <;>
+  dsimp only at hf <;>
+  (first
+    | (obtain ⟨a, rfl⟩ := List.length_eq_one_iff.1 hf)
+    | (obtain ⟨a, b, rfl⟩ := List.length_eq_two.1 hf)
+    | (obtain ⟨a, b, c, rfl⟩ := List.length_eq_three.1 hf)
+    | (obtain ⟨a, b, c, d, rfl⟩ := length_eq_four.1 hf)) <;>
+  simp only [Gen.Admix.guardFl_phi_2D_to_3D_admix, Gen.Admix.guardFl_phi_3D_to_4D, Gen.Admix.guardFl_phi_4D_to_5D,
+    Gen.Admix.guardFl_phi_2D_admix_1_into_2, Gen.Admix.guardFl_phi_2D_admix_2_into_1, Gen.Admix.guardFl_phi_3D_admix_1_and_2_into_3,
+    Gen.Admix.guardFl_phi_3D_admix_1_and_3_into_2, Gen.Admix.guardFl_phi_3D_admix_2_and_3_into_1, Gen.Admix.guardFl_phi_4D_admix_into_1,
+    Gen.Admix.guardFl_phi_4D_admix_into_2, Gen.Admix.guardFl_phi_4D_admix_into_3, Gen.Admix.guardFl_phi_4D_admix_into_4,
+    Gen.Admix.guardFl_phi_5D_admix_into_1, Gen.Admix.guardFl_phi_5D_admix_into_2, Gen.Admix.guardFl_phi_5D_admix_into_3,
+    Gen.Admix.guardFl_phi_5D_admix_into_4, Gen.Admix.guardFl_phi_5D_admix_into_5,
+    List.getD_cons_zero, List.getD_cons_succ, decide_eq_false_iff_not, not_lt, gt_iff_lt] <;>
+  exact hsum _ (by simp) (fun x hx => ⟨hs.1 x hx, hrep x hx⟩) hs.2
+
+/-- the assumptions are consistent (exact arithmetic satisfies them with e = u = 0) -/
+example : RoundEFT id 0 0 :=
+  { mono := fun _ _ h => h, zero := rfl, one := rfl, err := fun x _ _ => by simp, tie := fun x h => by simpa using h,
+    e_nonneg := le_refl _, idem := fun _ => rfl, err_lo := fun x _ _ => by simp, rel := fun x => by simp,
+    u_nonneg := le_refl _, u_small := by norm_num, fast2sum := fun a b _ _ _ => by simp only [id]; ring }
+
+/-- In the other direction the float guard (left-to-right `sum`, relative error ≤ u per addition) fires as soon as the
+    exact sum exceeds `1/(1-u)^n` (n = number of proportions; binary64: 1 + n·2⁻⁵³ to first order): sums above 1 by less
+    than that may be accepted by the float code. -/
+theorem C06_simplex_reject_float (rnd : ℚ → ℚ) (u : ℚ) (hu0 : 0 ≤ u) (hu1 : u ≤ 1) (hrel : ∀ x, |rnd x - x| ≤ u * |x|) :
+    ∀ r ∈ Gen.Admix.guardsFl, ∀ f : List ℚ, f.length = r.nf → (∀ x ∈ f, 0 ≤ x) → 1 < (1 - u) ^ r.nf * f.sum →
+      r.guardFl rnd (seqSum rnd) f = true := by
+  intro r hr f hf hx hs
+  have key := seqSum_reject rnd u hu0 hu1 hrel f hx (by rw [hf]; exact hs)
+  simp only [Gen.Admix.guardsFl, List.mem_cons, List.mem_nil_iff, or_false] at hr
+  rcases hr with rfl | rfl | rfl | rfl | rfl | rfl | rfl | rfl | rfl | rfl | rfl | rfl | rfl | rfl | rfl | rfl | rfl <;>
+  dsimp only at hf <;>
+  (first
+    | (obtain ⟨a, rfl⟩ := List.length_eq_one_iff.1 hf)
+    | (obtain ⟨a, b, rfl⟩ := List.length_eq_two.1 hf)
+    | (obtain ⟨a, b, c, rfl⟩ := List.length_eq_three.1 hf)
+    | (obtain ⟨a, b, c, d, rfl⟩ := length_eq_four.1 hf)) <;>
+  simp only [Gen.Admix.guardFl_phi_2D_to_3D_admix, Gen.Admix.guardFl_phi_3D_to_4D, Gen.Admix.guardFl_phi_4D_to_5D,
+    Gen.Admix.guardFl_phi_2D_admix_1_into_2, Gen.Admix.guardFl_phi_2D_admix_2_into_1, Gen.Admix.guardFl_phi_3D_admix_1_and_2_into_3,
+    Gen.Admix.guardFl_phi_3D_admix_1_and_3_into_2, Gen.Admix.guardFl_phi_3D_admix_2_and_3_into_1, Gen.Admix.guardFl_phi_4D_admix_into_1,
+    Gen.Admix.guardFl_phi_4D_admix_into_2, Gen.Admix.guardFl_phi_4D_admix_into_3, Gen.Admix.guardFl_phi_4D_admix_into_4,
+    Gen.Admix.guardFl_phi_5D_admix_into_1, Gen.Admix.guardFl_phi_5D_admix_into_2, Gen.Admix.guardFl_phi_5D_admix_into_3,
+    Gen.Admix.guardFl_phi_5D_admix_into_4, Gen.Admix.guardFl_phi_5D_admix_into_5,
+    List.getD_cons_zero, List.getD_cons_succ, decide_eq_true_eq, gt_iff_lt] <;>
+  exact key
+
+example : (1 : ℚ) < (1 - 1/8) ^ 2 * ([7/10, 7/10] : List ℚ).sum := by norm_num
 
 end DadiVerif
